@@ -9,6 +9,7 @@ import (
 	"os"
 	"path/filepath"
 	"sort"
+	"strings"
 	"time"
 )
 
@@ -17,6 +18,10 @@ type FileSpec struct {
 	Size int64  `json:"size"`
 	Seed uint64 `json:"seed"`
 	Age  int64  `json:"age_s"` // mtime = time of writing - Age seconds
+	// Link: "" regular file; "abs" / "rel": Name is a symbolic link (absolute /
+	// relative target path) to a regular file with this content that lies
+	// outside the outgoing directory
+	Link string `json:"link,omitempty"`
 }
 
 type envAction struct {
@@ -80,6 +85,30 @@ func (w *World) write(f FileSpec, atomic bool) {
 	p := w.path(f.Name)
 	os.MkdirAll(filepath.Dir(p), 0755)
 	mt := time.Now().Add(-time.Duration(f.Age) * time.Second)
+	if f.Link != "" {
+		target := filepath.Join(w.s.ws, "linktargets", strings.ReplaceAll(f.Name, "/", "__"))
+		os.MkdirAll(filepath.Dir(target), 0755)
+		if err := os.WriteFile(target, data, 0644); err != nil {
+			w.s.troublef("write link target: %v", err)
+		}
+		os.Chtimes(target, mt, mt)
+		to := target
+		if f.Link == "rel" {
+			if rel, err := filepath.Rel(filepath.Dir(p), target); err == nil {
+				to = rel
+			}
+		}
+		os.Remove(p)
+		if err := os.Symlink(to, p); err != nil {
+			w.s.troublef("symlink: %v", err)
+		}
+		if err := lutimes(p, time.Now()); err != nil {
+			w.s.troublef("lutimes: %v", err)
+		}
+		w.s.stat("env:symlink-" + f.Link)
+		w.record(f.Name, data, mt, f.Seed)
+		return
+	}
 	if atomic {
 		tmp := filepath.Join(w.s.ws, "tmp-src")
 		os.WriteFile(tmp, data, 0644)
